@@ -177,43 +177,44 @@ def c02b(ctx):
         if isinstance(st, (ast.Assign, ast.Return, ast.Expr)) and contains(st, lambda x: is_call(x, 'flip_tile_coord')):
             return 'flip'
         return None
-    tab = ctx.rows(table(fn.node.body, lambda n: 'raise' if isinstance(n, ast.Raise) else 'return', event_of=ev))
-    a_none = [a for a in tab.atoms if 'None' in a and 'tile_coord' in a]
-    a_nw = [a for a in tab.atoms if "'nw'" in a and 'origin' in a and '==' in a]
-    a_sw = [a for a in tab.atoms if "'sw'" in a and 'origin' in a and '==' in a]
-    a_gul = [a for a in tab.atoms if ' in ' in a and "'ul'" in a]
-    a_gll = [a for a in tab.atoms if ' in ' in a and "'ll'" in a]
-    if not (len(a_none) == len(a_nw) == len(a_sw) == len(a_gul) == len(a_gll) == 1):
-        ctx.bad('TileLayer._internal_tile_coord:flip-table', 'unexpected test atoms %s' % tab.atoms, fn)
-    else:
-        ul = tab.atom_objs[a_gul[0]]
-        ll = tab.atom_objs[a_gll[0]]
-        ul_set = {const_value(e, 'x') for e in ul.right.elts} if isinstance(ul.right, (ast.Tuple, ast.List, ast.Set)) else set()
-        ll_set = {const_value(e, 'x') for e in ll.right.elts} if isinstance(ll.right, (ast.Tuple, ast.List, ast.Set)) else set()
-        sets_ok = ul_set == {'ul', 'nw'} and ll_set == {'ll', 'sw', None}
-        bad = []
-        for asg, out, events in tab.assignments():
-            if asg[a_none[0]]:
-                want = ('raise', ())
-            else:
-                if asg[a_nw[0]] and asg[a_sw[0]]:
-                    continue     # infeasible: origin cannot equal both
-                flip = (asg[a_nw[0]] and not asg[a_gul[0]]) or (asg[a_sw[0]] and not asg[a_gll[0]])
-                want = ('return', ('flip',) if flip else ())
-            if (out, events) != want:
-                bad.append((asg, out, events))
-        ctx.check(not bad and sets_ok, 'TileLayer._internal_tile_coord:flip-table',
-                  'flip <=> (request nw and grid not in {ul,nw}) or (request sw and grid not in {ll,sw,None}); None -> TileOutOfRange (%d rows)' % len(tab.rows),
-                  fn, fail='the origin flip is applied for the wrong combinations of request and grid origin: %s %s' % (bad[:1], '' if sets_ok else (ul_set, ll_set)))
+    # the function is specialised for every pair (requested origin, grid origin); what is left must flip exactly when the two
+    # number the rows from different edges -- whatever way the dispatch is written (if-chain, lookup table, named condition)
+    NORTH, SOUTH = ('ul', 'nw'), ('ll', 'sw', None)
+    bad, rows = [], 0
+    for ro in ('nw', 'sw', 'other', None):
+        for go in NORTH + SOUTH:
+            sp = ctx.repo.specialise(fn, {'tile_request.origin': ro, 'self.grid.origin': go})
+            tab = table(sp.node.body, lambda n: 'raise' if isinstance(n, ast.Raise) else 'return', event_of=ev)
+            rows += len(tab.rows)
+            a_none = [a for a in tab.atoms if 'None' in a and 'tile_coord' in a]
+            if len(a_none) != 1 or len(tab.atoms) != 1:
+                bad.append((ro, go, 'undecided tests left: %s' % tab.atoms))
+                continue
+            flip = (ro == 'nw' and go not in NORTH) or (ro == 'sw' and go not in SOUTH)
+            for asg, out, events in tab.assignments():
+                want = ('raise', ()) if asg[a_none[0]] else ('return', ('flip',) if flip else ())
+                if (out, events) != want:
+                    bad.append((ro, go, out, events))
+    ctx.rows_seen = getattr(ctx, 'rows_seen', 0)
+    ctx.check(not bad, 'TileLayer._internal_tile_coord:flip-table',
+              'flip <=> (request nw and grid not in {ul,nw}) or (request sw and grid not in {ll,sw,None}); None -> TileOutOfRange '
+              '(20 origin pairs, %d rows)' % rows,
+              fn, fail='the origin flip is applied for the wrong combinations of (request origin, grid origin): %s' % (bad[:2],))
     defs = Defs(fn.node)
     conv = [v for v, sel in defs.of('tile_coord') if is_call(v, 'internal_tile_coord')]
     ok = len(conv) == 1 and depends(conv[0].args[0], lambda x: isinstance(x, ast.Attribute) and x.attr == 'tile', defs)
     ctx.check(ok, 'TileLayer._internal_tile_coord:converts-first', 'the public coordinate is first mapped by grid.internal_tile_coord (level mapping + bounds)', fn)
     # capabilities side: origin_tile
     ot = ctx.fn('mapproxy/grid.py:TileGrid.origin_tile')
-    tab = ctx.rows(table(ot.node.body, lambda n: ('flip' if n is not None and isinstance(n, ast.Return) and is_call(n.value, 'flip_tile_coord') else 'same')))
-    eq = [a for a in tab.atoms if 'origin_from_string' in a and 'self.origin' in a]
-    ok = len(eq) == 1 and all((out == 'same') == asg[eq[0]] for asg, out, _ in tab.assignments())
+    # closed form of the result under either outcome of the comparison requested origin == grid origin
+    tab0 = table(ot.node.body, lambda n: 'x')
+    eq = [a for a in tab0.atoms if 'origin_from_string' in a and 'self.origin' in a]
+    ok = len(eq) == 1
+    if ok:
+        for val, want in ((True, '(0,0,level)'), (False, 'self.flip_tile_coord((0,0,level))')):
+            cf = Canon(ot, assume={eq[0]: val})
+            forms = {cf.text(r.value) for r in returns_of(ot.node) if r.value is not None and ot.cfg.node_of.get(id(r)) not in cf.infeasible}
+            ok = ok and forms == {want}
     ctx.check(ok, 'TileGrid.origin_tile:flip-table', 'origin_tile flips (0,0,level) iff the requested origin differs from the grid origin', ot,
               fail='origin_tile flips exactly when the origins are EQUAL: the advertised TopLeftCorner of every grid whose origin '
                    'differs from "ul" is the corner of the bottom-left tile')
@@ -296,31 +297,56 @@ def c02d(ctx):
     itc = ctx.fn(T + 'internal_tile_coord')
     etc = ctx.fn(T + 'external_tile_coord')
 
-    def steps(fn):
-        out = []
-        gg = fn.cfg
-        for st in fn.walk():
-            if isinstance(st, ast.AugAssign) and unparse(st.target) == 'z':
-                # the guard in canonical form: the atoms (with polarity) that hold on every path to the statement
-                atoms = sorted({(at.text if p else 'not ' + at.text) for at, p in gg.guards_of(gg.node_of[id(st)]) if '_skip_' in at.text or 'use_profiles' in at.text})
-                out.append((type(st.op).__name__, const_value(st.value), ' and '.join(atoms) if atoms else None, st))
-        return sorted(out, key=lambda t: t[3].lineno)
-    si, se = steps(itc), steps(etc)
-    gi = {t[2]: (t[0], t[1]) for t in si}
-    ge = {t[2]: (t[0], t[1]) for t in se}
-    ok = set(gi) == set(ge) == {'self._skip_first_level and use_profiles', 'self._skip_odd_level'}
-    ctx.check(ok, 'TileServiceGrid:level-guards-agree', 'internal_tile_coord and external_tile_coord adjust the level under the same two guards', itc,
-              fail='level mapping guards differ: internal %s, external %s' % (sorted(gi), sorted(ge)))
-    inv = {('Add', 1): ('Sub', 1), ('Mult', 2): ('FloorDiv', 2)}
-    ok2 = ok and all(inv.get(gi[k]) == ge[k] for k in gi)
-    ctx.check(ok2, 'TileServiceGrid:level-ops-inverse', 'the external mapping applies the inverse operations (+1/-1, *2 / //2)', etc,
-              fail='internal level steps %s are not inverted by the external steps %s' % (gi, ge))
-    # order: internal  +1 then *2 ; external must undo in reverse order? (z+1)*2 -> z//2 - 1
-    if ok2:
-        oi = [t[2] for t in si]
-        oe = [t[2] for t in se]
-        ctx.check(oi == ['self._skip_first_level and use_profiles', 'self._skip_odd_level'], 'TileServiceGrid:internal-order',
-                  'internal level = (z + first-level skip) * odd-level factor', itc)
+    import itertools
+    FLAGS = ['use_profiles', 'self._skip_first_level', 'self._skip_odd_level']
+
+    def norm(txt):
+        return ast.unparse(ast.parse(txt, mode='eval').body).replace(' ', '')
+
+    def level_forms(fn, pick):
+        """closed form of the level component of the result under every truth assignment of the three flags"""
+        out = {}
+        for vals in itertools.product([False, True], repeat=3):
+            cf = Canon(fn, assume=dict(zip(FLAGS, vals)))
+            forms = set()
+            for r in returns_of(fn.node):
+                if r.value is None or const_value(r.value, 1) is None or fn.cfg.node_of.get(id(r)) in cf.infeasible:
+                    continue
+                e = pick(cf.expr(r.value))
+                forms.add(ast.unparse(e).replace(' ', '') if e is not None else '?')
+            out[vals] = forms
+        return out
+
+    def triple_level(e):
+        if is_call(e, 'self.grid.limit_tile', 'limit_tile') and e.args:
+            e = e.args[0]
+        return e.elts[2] if isinstance(e, ast.Tuple) and len(e.elts) == 3 else None
+    fi, fe = level_forms(itc, triple_level), level_forms(etc, triple_level)
+    Z = 'tile_coord[2]'
+    bad_i, bad_e = [], []
+    for (up, first, odd), forms in sorted(fi.items()):
+        z = Z
+        if up and first:
+            z = '(%s+1)' % z
+        if odd:
+            z = '%s*2' % z
+        if forms != {norm(z)}:
+            bad_i.append(((up, first, odd), sorted(forms), norm(z)))
+    ctx.check(not bad_i, 'TileServiceGrid:internal-order', 'internal level = (z + first-level skip) * odd-level factor, the first-level skip only with profiles', itc,
+              fail='internal level mapping is not (z + skip) * factor: flags (profiles, first, odd) -> got / want: %s' % bad_i[:2])
+    for (up, first, odd), forms in sorted(fe.items()):
+        a = 1 if (up and first) else 0
+        # both inverses of (z + a) * m on its image
+        w1 = '(%s-1)' % Z if a else Z
+        w1 = '%s//2' % w1 if odd else w1
+        w2 = '%s//2' % Z if odd else Z
+        w2 = '%s-1' % w2 if a else w2
+        if not forms or not forms <= {norm(w1), norm(w2)}:
+            bad_e.append(((up, first, odd), sorted(forms), norm(w1)))
+    ctx.check(not bad_e, 'TileServiceGrid:level-ops-inverse', 'the external mapping applies the inverse operations (-1 where the internal adds 1, //2 where it doubles) '
+              'under the same flags', etc, fail='external level mapping does not invert the internal one: flags (profiles, first, odd) -> got / want: %s' % bad_e[:2])
+    ctx.check(not bad_i and not bad_e, 'TileServiceGrid:level-guards-agree', 'internal_tile_coord and external_tile_coord adjust the level under the same two guards', itc,
+              fail='level mapping guards differ between internal_tile_coord and external_tile_coord')
     # result goes through limit_tile
     g = itc.cfg
     rets = g.find_stmts(lambda s: isinstance(s, ast.Return))
@@ -356,11 +382,26 @@ def c02d(ctx):
     ctx.check(ok and not bad, 'TileServiceGrid.tile_sets:start-step', 'advertised tile sets start at (first-level skip)*(odd factor) and step by the odd factor, '
               'the image of public levels 0,1,2,... under internal_tile_coord', ts,
               fail='tile_sets advertises levels that internal_tile_coord does not map to: %s' % bad[:2])
-    lp = [s for s in ts.walk() if isinstance(s, ast.For)]
-    ok = bool(lp) and is_call(lp[0].iter, 'enumerate') and is_call(lp[0].iter.args[0], 'range') and \
-        [unparse(a) for a in lp[0].iter.args[0].args] == ['start', 'num_levels', 'step']
-    app = [x for x in ts.walk() if is_call(x, 'tile_sets.append')]
-    ok = ok and bool(app) and unparse(app[0].args[0]) == '(order, self.grid.resolutions[level])'
+    # the pairing loop (statement or comprehension): for order, level in enumerate(range(start, <levels>, step)) -> (order, resolutions[level])
+    cft = Canon(ts)
+    its = [(x.target, x.iter, None) for x in ts.walk() if isinstance(x, ast.For)] + \
+          [(gen.target, gen.iter, x.elt) for x in ts.walk() if isinstance(x, (ast.ListComp, ast.GeneratorExp)) for gen in x.generators]
+    ok = False
+    for tgt, it, elt in its:
+        it = resolve1(it, Defs(ts.node))
+        if not (is_call(it, 'enumerate') and it.args and isinstance(tgt, ast.Tuple) and len(tgt.elts) == 2):
+            continue
+        rng = resolve1(it.args[0], Defs(ts.node))
+        if not is_call(rng, 'range') or len(rng.args) != 3:
+            continue
+        a0, a1, a2 = [unparse(x) for x in rng.args]
+        if a0 != 'start' or a2 != 'step' or cft.text(rng.args[1], at=ts.cfg.node_for(rng)) not in ('self.grid.levels',):
+            continue
+        order, level = [unparse(e) for e in tgt.elts]
+        if elt is None:
+            app = [x for x in ts.walk() if isinstance(x, ast.Call) and simple_name(x) == 'append' and x.args]
+            elt = app[0].args[0] if app else None
+        ok = elt is not None and unparse(elt).replace(' ', '') == '(%s,self.grid.resolutions[%s])' % (order, level)
     ctx.check(ok, 'TileServiceGrid.tile_sets:order-resolution', 'order k is paired with the resolution of internal level start + k*step', ts)
 
 
